@@ -22,6 +22,7 @@ import (
 	"strconv"
 	"strings"
 	"sync"
+	"syscall"
 	"time"
 
 	"github.com/google/uuid"
@@ -30,6 +31,7 @@ import (
 	"github.com/semafind/semadb/diskstore"
 	"github.com/semafind/semadb/models"
 	"github.com/vmihailenco/msgpack/v5"
+	"golang.org/x/sys/unix"
 
 	"verifharness/vh"
 )
@@ -263,6 +265,14 @@ type base struct {
 	fkeys  []string
 	byHost map[string]string
 	synth  map[string]bool // synthetic shard files (not part of a collection)
+	all    []int           // histories: the nodes to dump (switched-off nodes included); nil: part
+}
+
+func (b *base) dumpNodes() []int {
+	if b.all != nil {
+		return b.all
+	}
+	return b.part
 }
 
 type fault struct {
@@ -378,8 +388,9 @@ func (h *harness) buildBase(sc int, tr transition, nUsers, colsPerUser, ptsPerCo
 			n.Close()
 		}
 	}
+	users := h.userIds(nUsers)
 	for u := 0; u < nUsers; u++ {
-		user := fmt.Sprintf("user%02d%04x", u, h.rng.Intn(65536))
+		user := users[u]
 		for c := 0; c < colsPerUser; c++ {
 			col := models.Collection{UserId: user, Id: fmt.Sprintf("col%02d", c), Replicas: 1, IndexSchema: schema, UserPlan: userPlan()}
 			api := nodes[h.rng.Intn(len(nodes))]
@@ -482,6 +493,31 @@ func (h *harness) buildBase(sc int, tr transition, nUsers, colsPerUser, ptsPerCo
 	return b, nil
 }
 
+// userIds: ids drawn from the seed; about half of them extend an earlier id by one or two characters
+// (alice / alice-eu, user1 / user10): user ids are free-form, routing must depend on the whole id,
+// and in the node database "<id>/<collection>" of the shorter id sorts directly before the longer.
+func (h *harness) userIds(n int) []string {
+	const tail = "0123456789abcdefxyz-_"
+	var ids []string
+	seen := map[string]bool{}
+	for len(ids) < n {
+		var id string
+		if len(ids) > 0 && h.rng.Chance(55) {
+			id = ids[h.rng.Intn(len(ids))]
+			for t := 1 + h.rng.Intn(2); t > 0; t-- {
+				id += string(tail[h.rng.Intn(len(tail))])
+			}
+		} else {
+			id = fmt.Sprintf("user%02d%04x", len(ids), h.rng.Intn(65536))
+		}
+		if !seen[id] {
+			seen[id] = true
+			ids = append(ids, id)
+		}
+	}
+	return ids
+}
+
 func (b *base) nodeIdx(name string) int {
 	for i, s := range b.specs {
 		if s.name == name {
@@ -527,7 +563,14 @@ func (h *harness) describe(b *base, sc int, flt fault) {
 func (h *harness) dump(b *base, specs []nodeSpec) (map[string]nodeState, string) {
 	res := map[string]nodeState{}
 	var parts []string
-	for _, i := range b.part {
+	knownR, knownF := map[string]bool{}, map[string]bool{}
+	for _, k := range b.rkeys {
+		knownR[k] = true
+	}
+	for _, k := range b.fkeys {
+		knownF[k] = true
+	}
+	for _, i := range b.dumpNodes() {
 		st, err := readNode(specs[i])
 		if err != nil {
 			parts = append(parts, specs[i].name+"[unreadable "+err.Error()+"]")
@@ -537,7 +580,7 @@ func (h *harness) dump(b *base, specs []nodeSpec) (map[string]nodeState, string)
 		var rs, fs []string
 		for _, k := range b.rkeys {
 			if v, ok := st.recs[k]; ok {
-				if bytes.Equal(v, b.orig.recs[k]) {
+				if o, live := b.orig.recs[k]; live && bytes.Equal(v, o) {
 					rs = append(rs, k+"=orig")
 				} else {
 					rs = append(rs, k+"="+digest(recSymbols(v)))
@@ -546,7 +589,7 @@ func (h *harness) dump(b *base, specs []nodeSpec) (map[string]nodeState, string)
 		}
 		for _, k := range b.fkeys {
 			if v, ok := st.files[k]; ok {
-				if bytes.Equal(v, b.orig.files[k]) {
+				if o, live := b.orig.files[k]; live && bytes.Equal(v, o) {
 					fs = append(fs, k+"=orig")
 				} else {
 					fs = append(fs, k+"="+digest(fileSymbols(v)))
@@ -554,16 +597,22 @@ func (h *harness) dump(b *base, specs []nodeSpec) (map[string]nodeState, string)
 			}
 		}
 		// anything the scenario does not know about is reported too
+		var unk []string
 		for k := range st.recs {
-			if _, ok := b.orig.recs[k]; !ok {
-				rs = append(rs, "UNKNOWN:"+k)
+			if !knownR[k] {
+				unk = append(unk, "UNKNOWN:"+k)
 			}
 		}
+		sort.Strings(unk)
+		rs = append(rs, unk...)
+		unk = nil
 		for k := range st.files {
-			if _, ok := b.orig.files[k]; !ok {
-				fs = append(fs, "UNKNOWN:"+k)
+			if !knownF[k] {
+				unk = append(unk, "UNKNOWN:"+k)
 			}
 		}
+		sort.Strings(unk)
+		fs = append(fs, unk...)
 		parts = append(parts, specs[i].name+"[r "+strings.Join(rs, " ")+" | f "+strings.Join(fs, " ")+"]")
 	}
 	return res, strings.Join(parts, " ")
@@ -1331,6 +1380,68 @@ func (s *seededReader) Read(p []byte) (int, error) {
 	return len(p), nil
 }
 
+// ------------------------------------------------------------------------------------ isolation
+//
+// The host names of the nodes ("127.0.0.1:<port>") are what RendezvousHash hashes, so the ports are
+// part of the scenario and derive from the seed.  Two runs with the same seed on one machine would
+// use the same ports: while the nodes of one run are down between two rounds the other run can bind
+// them, and a sender then delivers its records to a node of the OTHER run (seen as UNKNOWN keys in a
+// dump: a false alarm).  The scenarios therefore run in a network namespace of their own (own
+// loopback, every port free: the ports, hence the placements, are reproducible).  Where that is not
+// permitted the run holds an exclusive lock per seed instead.
+
+const exitNoNetns = 78
+
+func loopbackUp() error {
+	fd, err := unix.Socket(unix.AF_INET, unix.SOCK_DGRAM, 0)
+	if err != nil {
+		return err
+	}
+	defer unix.Close(fd)
+	ifr, err := unix.NewIfreq("lo")
+	if err != nil {
+		return err
+	}
+	if err := unix.IoctlIfreq(fd, unix.SIOCGIFFLAGS, ifr); err != nil {
+		return err
+	}
+	ifr.SetUint16(ifr.Uint16() | unix.IFF_UP | unix.IFF_RUNNING)
+	if err := unix.IoctlIfreq(fd, unix.SIOCSIFFLAGS, ifr); err != nil {
+		return err
+	}
+	l, err := net.Listen("tcp", "127.0.0.1:0")
+	if err != nil {
+		return err
+	}
+	return l.Close()
+}
+
+// runInner runs the scenarios (`-inner`) in a child process: in a new network namespace if possible,
+// otherwise under a per-seed lock.  Returns the combined output and the error of the run.
+func runInner(self string, seed uint64, args ...string) ([]byte, error) {
+	var buf bytes.Buffer
+	cmd := exec.Command(self, append([]string{"-inner", "-netns"}, args...)...)
+	cmd.SysProcAttr = &syscall.SysProcAttr{Unshareflags: syscall.CLONE_NEWNET}
+	cmd.Stdout = &buf
+	cmd.Stderr = &buf
+	err := cmd.Run()
+	if ee, ok := err.(*exec.ExitError); err == nil || (ok && ee.ExitCode() != exitNoNetns) {
+		return buf.Bytes(), err
+	}
+	// no namespace: serialise the runs of this seed on this machine
+	if lock, lerr := os.OpenFile(filepath.Join(os.TempDir(), fmt.Sprintf("verif-c14-seed%d.lock", seed)), os.O_CREATE|os.O_RDWR, 0o666); lerr == nil {
+		defer lock.Close()
+		unix.Flock(int(lock.Fd()), unix.LOCK_EX)
+		defer unix.Flock(int(lock.Fd()), unix.LOCK_UN)
+	}
+	buf.Reset()
+	cmd = exec.Command(self, append([]string{"-inner"}, args...)...)
+	cmd.Stdout = &buf
+	cmd.Stderr = &buf
+	err = cmd.Run()
+	return buf.Bytes(), err
+}
+
 // ------------------------------------------------------------------------------------ main
 
 func main() {
@@ -1340,6 +1451,7 @@ func main() {
 	tier := flag.String("tier", "quick", "")
 	isChild := flag.Bool("child", false, "")
 	inner := flag.Bool("inner", false, "")
+	netns := flag.Bool("netns", false, "")
 	root := flag.String("root", "", "")
 	port := flag.Int("port", 0, "")
 	servers := flag.String("servers", "", "")
@@ -1361,14 +1473,11 @@ func main() {
 		var tail string
 		for attempt := 0; attempt < 2; attempt++ {
 			os.Remove(filepath.Join(*outDir, "stats.json"))
-			cmd := exec.Command(self, "-inner", "-seed", strconv.FormatUint(*seed, 10), "-tier", *tier, "-out", *outDir)
-			var buf bytes.Buffer
-			cmd.Stdout = &buf
-			cmd.Stderr = &buf
-			err := cmd.Run()
+			out, err := runInner(self, *seed, "-seed", strconv.FormatUint(*seed, 10), "-tier", *tier, "-out", *outDir)
 			if _, serr := os.Stat(filepath.Join(*outDir, "stats.json")); err == nil && serr == nil {
 				return
 			}
+			buf := bytes.NewBuffer(out)
 			lines := strings.Split(buf.String(), "\n")
 			var keep []string
 			for _, l := range lines {
@@ -1385,6 +1494,12 @@ func main() {
 		fmt.Println("harness process crashed twice; output of the last attempt:")
 		fmt.Println(tail)
 		os.Exit(3)
+	}
+	if *netns {
+		if err := loopbackUp(); err != nil {
+			fmt.Println("no usable loopback in the new network namespace:", err)
+			os.Exit(exitNoNetns)
+		}
 	}
 	tmp, err := os.MkdirTemp("", "c14-")
 	if err != nil {
@@ -1489,6 +1604,71 @@ func (h *harness) runAll(extra map[string]any, only int) {
 		}
 		os.RemoveAll(b.dir)
 	}
+	// ---- histories over several server lists (epochs.go)
+	type hplan struct {
+		kind             string
+		first            []int
+		users, cols, pts int
+		steps            []histStep
+	}
+	rnd := func(n int) []histStep {
+		var st []histStep
+		for i := 0; i < n; i++ {
+			st = append(st, histStep{mode: "random", ops: -1, dup: []string{"", "rec", "file"}[h.rng.Intn(3)]})
+		}
+		return st
+	}
+	// a change of the list is interrupted (the same record / shard is left on two nodes), rolled back
+	// without draining the node that leaves, the cluster serves and the data changes, then the change
+	// is applied again; afterwards the walk continues at random
+	rollback := func(dup string, ch ...string) []histStep {
+		return append([]histStep{
+			{prefer: ch, mode: "leave", dup: dup},
+			{prefer: []string{"rollback", "rollback-drain"}, mode: "clean", ops: 2, busy: true},
+			// the list before the last one is now the one whose application was interrupted
+			{prefer: []string{"rollback", "rollback-drain"}, mode: "random", ops: 2},
+		}, rnd(1)...)
+	}
+	var hplans []hplan
+	if h.tier == "quick" {
+		hplans = []hplan{
+			{"rollback-grow", []int{0}, 4, 1, 6, rollback("rec", "grow")},
+			{"rollback-grow", []int{0, 1}, 4, 1, 6, rollback("rec", "grow")},
+			{"rollback-grow", []int{1}, 3, 1, 6, rollback("file", "grow")},
+			{"rollback-replace", []int{0, 1}, 4, 1, 6, rollback("rec", "replace-drain", "replace")},
+			{"walk", []int{0, 1}, 3, 2, 6, rnd(4)},
+			{"walk", []int{0}, 4, 1, 6, rnd(4)},
+		}
+	} else {
+		hplans = []hplan{
+			{"rollback-grow", []int{0}, 4, 2, 9, rollback("rec", "grow")},
+			{"rollback-grow", []int{0, 1}, 4, 2, 9, rollback("rec", "grow")},
+			{"rollback-grow", []int{3}, 4, 2, 9, rollback("file", "grow")},
+			{"rollback-grow", []int{1, 2}, 5, 1, 9, rollback("file", "grow")},
+			{"rollback-replace", []int{0, 1}, 4, 2, 9, rollback("rec", "replace-drain", "replace")},
+			{"rollback-replace", []int{0}, 4, 1, 9, rollback("rec", "replace-drain", "replace")},
+			{"rollback-replace", []int{2}, 4, 1, 9, rollback("file", "replace-drain", "replace")},
+			{"rollback-shrink", []int{0, 1, 2}, 4, 1, 9, rollback("rec", "shrink-drain", "shrink")},
+		}
+		for i := 0; i < 10; i++ {
+			var first []int
+			for n := 0; n < 4; n++ {
+				if (i+1)>>uint(n%3)&1 == 1 && len(first) < 3 {
+					first = append(first, n)
+				}
+			}
+			if len(first) == 0 {
+				first = []int{i % 4}
+			}
+			hplans = append(hplans, hplan{"walk", first, 3 + i%3, 1 + i%2, 9, rnd(6)})
+		}
+	}
+	for i, p := range hplans {
+		sc := 100 + i
+		h.rng = vh.NewRng(h.seed*7919 + uint64(sc)*104729 + 1)
+		uuid.SetRand(&seededReader{r: vh.NewRng(h.seed*15485863 + uint64(sc)*32452843 + 5)})
+		h.runHistory(sc, p.kind, p.first, p.users, p.cols, p.pts, p.steps)
+	}
 }
 
 // runReplay re-runs the scenarios named by the `scenario` lines of a replay file (same seed, tier
@@ -1516,8 +1696,7 @@ func runReplay(self, path string) {
 	}
 	tmp, _ := os.MkdirTemp("", "c14-replay-")
 	defer os.RemoveAll(tmp)
-	cmd := exec.Command(self, "-inner", "-seed", strconv.FormatUint(seed, 10), "-tier", tier, "-out", tmp)
-	cmd.Run()
+	runInner(self, seed, "-seed", strconv.FormatUint(seed, 10), "-tier", tier, "-out", tmp)
 	ops, _ := os.ReadFile(filepath.Join(tmp, "ops.txt"))
 	impl, _ := os.ReadFile(filepath.Join(tmp, "impl.txt"))
 	opl := strings.Split(strings.TrimSpace(string(ops)), "\n")
